@@ -225,13 +225,51 @@ theorem expected_all (ms : List Nat) (n : Int) (hn : n.toNat = ms.length) :
   intro i _
   simp
 
+/-- what `Marshal` returns, explicitly: nothing for the empty set, the members as little-endian 16-bit values when
+    there are fewer than 64, the 16 words as little-endian 64-bit values otherwise; it never panics -/
+theorem marshal_eq (c : Cfg) (hc : Proved c) (magic : Int) (b : Bit1024) :
+    marshal c magic b = some (
+      if (members1024 b).length = 0 then []
+      else if (members1024 b).length < 64 then ((members1024 b).map (BitVec.ofNat 16)).flatMap le16
+      else b.toList.flatMap le64) := by
+  unfold marshal
+  simp only [len1024_eq, hc.2.2.2.2.2.1]
+  by_cases h0 : (members1024 b).length = 0
+  · simp [h0]
+  · simp only [h0, if_false]
+    by_cases hs : (members1024 b).length < 64
+    · simp only [hs, if_true]
+      have hn : (0 : Int) ≤ ((members1024 b).length : Nat) := by omega
+      rw [getN1024_spec c.base hc.1 magic false b _ hn]
+      have hE := expected_all (members1024 b) ((members1024 b).length : Nat) (by simp)
+      rw [hE]
+      generalize members1024 b = ms at *
+      have hne : ms.map (BitVec.ofNat 16) ≠ [] := by
+        intro e
+        have := congrArg List.length e
+        simp at this
+        exact h0 (by rw [this]; rfl)
+      simp only [hne, if_false, List.length_map, if_true]
+    · simp only [hs, if_false]
+
+/-- encoding sizes: 0 bytes for the empty set, 2 bytes per member below 64 members, 128 bytes otherwise -/
+theorem marshal_size_all (c : Cfg) (hc : Proved c) (magic : Int) (b : Bit1024) :
+    ∃ bs, marshal c magic b = some bs ∧
+      bs.length = (if (members1024 b).length = 0 then 0 else if (members1024 b).length < 64 then 2 * (members1024 b).length else 128) := by
+  refine ⟨_, marshal_eq c hc magic b, ?_⟩
+  generalize members1024 b = ms
+  split
+  · rfl
+  · split
+    · rw [length_flatMap_le16]; simp
+    · rw [length_flatMap_le64]; simp
+
 /-- **Unmarshal (Marshal b) = b** for every bitmap, every threshold, both encodings -/
 theorem marshal_roundtrip_all (c : Cfg) (hc : Proved c) (magic : Int) (b : Bit1024) :
     ∃ bs, marshal c magic b = some bs ∧ unmarshal empty1024 bs = .ok b := by
-  unfold marshal
-  simp only [len1024_eq, hc.2.2.2.2.2]
+  refine ⟨_, marshal_eq c hc magic b, ?_⟩
   by_cases h0 : (members1024 b).length = 0
-  · refine ⟨[], by simp [h0], ?_⟩
+  · simp only [h0, if_true]
     have hnil : members1024 b = [] := List.length_eq_zero_iff.1 h0
     have : b = empty1024 := by
       apply ext1024
@@ -246,21 +284,8 @@ theorem marshal_roundtrip_all (c : Cfg) (hc : Proved c) (magic : Int) (b : Bit10
   · simp only [h0, if_false]
     by_cases hs : (members1024 b).length < 64
     · simp only [hs, if_true]
-      have hn : (0 : Int) ≤ ((members1024 b).length : Nat) := by omega
-      rw [getN1024_spec c.base hc.1 magic false b _ hn]
-      have hE := expected_all (members1024 b) ((members1024 b).length : Nat) (by simp)
-      rw [hE]
-      generalize hms : members1024 b = ms at *
-      have hne : ms.map (BitVec.ofNat 16) ≠ [] := by
-        intro e
-        have := congrArg List.length e
-        simp at this
-        exact h0 (by rw [this]; rfl)
-      simp only [hne, if_false, List.length_map, if_true]
-      refine ⟨_, rfl, ?_⟩
-      rw [← hms]
-      exact sparse_roundtrip b (by rw [hms]; exact hs) (by rw [hms]; exact h0)
+      exact sparse_roundtrip b hs h0
     · simp only [hs, if_false]
-      exact ⟨_, rfl, dense_roundtrip b⟩
+      exact dense_roundtrip b
 
 end Nv.C09
